@@ -68,6 +68,30 @@ MultiObjective ==
      /\ ParetoSet(h, dirs) = ParetoSet(NegOn(h, F), FlipOn(dirs, F))
      /\ RankOf(h, dirs) = RankOf(NegOn(h, F), FlipOn(dirs, F))
 
+\* Wilcoxon (Dim = 2 instance read as two columns): column 1 = the current trial's values at the shared steps,
+\* column 2 = the best trial's; the best trial may have reported one more value (any of the range).
+Col(k) == [i \in 1..N |-> h[i].v[k]]
+MirrorWilcoxon ==
+  (Dim = 2 /\ N >= 1) =>
+    LET cur == Col(1)  best == Col(2)  d == DiffSeq(cur, best)  nd == DiffSeq(NegSeq(cur), NegSeq(best))
+        wp == WPlus4(d)  wm == WMinus4(d)  nwp == WPlus4(nd)  nwm == WMinus4(nd)
+        sc == SeqSum(cur)  sb == SeqSum(best)  nsc == SeqSum(NegSeq(cur))  nsb == SeqSum(NegSeq(best))
+        T4 == 2 * N * (N + 1)
+        \* the decision is a step function of the critical value: every critical value around the steps + both ends
+        Crit == {0, T4} \cup {x \in {wp - 1, wp, wm - 1, wm} : x >= 0}
+    IN \A dir \in {Min, Max}, c4 \in Crit, ns \in 0..3 : \A extra \in {0} \cup {x \in (0 - MaxV)..MaxV : x # 0} : \A hasExtra \in {0, 1} :
+         WilcoxonDecide(dir, N, wp, wm, sc, N, sb + hasExtra * extra, N + hasExtra, c4, ns)
+           = WilcoxonDecide(Flip(dir), N, nwp, nwm, nsc, N, nsb - hasExtra * extra, N + hasExtra, c4, ns)
+WilcoxonStatisticsPartition ==      \* W+ + W- = n(n+1)/2, and negating the differences swaps them
+  (Dim = 2 /\ N >= 1) => LET d == DiffSeq(Col(1), Col(2)) IN
+     /\ WPlus4(d) + WMinus4(d) = 2 * N * (N + 1)
+     /\ WPlus4(NegSeq(d)) = WMinus4(d)
+\* both answers occur (negative instances MirrorMC_wneg1/2.cfg must be violated)
+WilcoxonNeverPrunes == ~(Dim = 2 /\ N >= 2 /\ \E c4 \in 0..(2 * N * (N + 1)) : WilcoxonPrune(Max, Col(1), Col(2), Col(2), c4, 0))
+WilcoxonSafetyNeverDecides ==      \* the safety check overrules a "worse" verdict somewhere
+  ~(Dim = 2 /\ N >= 2 /\ WPlus4(DiffSeq(Col(1), Col(2))) <= N * (N + 1)
+      /\ ~WilcoxonPrune(Max, Col(1), Col(2), Col(2), N * (N + 1), 0))
+
 \* modelled defect (negative instance MirrorMC_bad.cfg, must be violated): the percentile is NOT taken from the
 \* other side for maximize - the theorem is sensitive to exactly the kind of edit C13 is about
 BadPercentilePrune(d, q4, others, own) ==
